@@ -5,6 +5,7 @@ from .. import shapes, sym
 from ..shapes import F, Catalogue, Shape, STD_ENUM
 from ..symtime import EPOCH_US, MAX_US, US_PER_SEC, SymDatetime, SymTimedelta
 
+WARMUP = True  # a concrete first use of the harness before each path (vf/explore.py: WarmEnv)
 PROPERTY = "C15"
 DUR_MAX_US = 315576000000 * US_PER_SEC
 
